@@ -29,6 +29,9 @@ pub enum Dir {
     RefAlone { lzma: RefLzma },
     RefRaw2 { filters: Vec<FilterSpec>, lzma: RefLzma },
     RefLzip { lzma: RefLzma },
+    // preset dictionaries (raw LZMA1 / LZMA2 only: no container stores one), both directions
+    OursPreset { opts: Opts, lzma2: bool, preset: Data, weave: u64 },
+    RefPreset { lzma: RefLzma, lzma2: bool, preset: Data, weave: u64 },
 }
 
 #[derive(Clone, Debug, Serialize, Deserialize)]
@@ -146,6 +149,12 @@ fn dir_strategy(tier: Tier, family: u32) -> BoxedStrategy<Dir> {
         11 => (filters_strategy(), ref_lzma_strategy(md))
             .prop_map(|(filters, lzma)| Dir::RefRaw2 { filters, lzma })
             .boxed(),
+        14 => (opts_strategy(1 << 20, true), any::<bool>(), preset_data(), any::<u64>())
+            .prop_map(|(opts, lzma2, preset, weave)| Dir::OursPreset { opts, lzma2, preset, weave })
+            .boxed(),
+        15 => (ref_lzma_strategy(1 << 20), any::<bool>(), preset_data(), any::<u64>())
+            .prop_map(|(lzma, lzma2, preset, weave)| Dir::RefPreset { lzma, lzma2, preset, weave })
+            .boxed(),
         _ => (ref_lzma_strategy(md), 12u32..=22)
             .prop_map(|(mut lzma, n)| {
                 lzma.lc = 3;
@@ -156,6 +165,16 @@ fn dir_strategy(tier: Tier, family: u32) -> BoxedStrategy<Dir> {
             })
             .boxed(),
     }
+}
+
+/// preset dictionaries: shorter than, about as long as and longer than the small dictionary sizes
+fn preset_data() -> BoxedStrategy<Data> {
+    prop_oneof![
+        3 => data_strategy(3, 3000),
+        2 => data_strategy(2, 20_000),
+        1 => (1u32..40, any::<u64>()).prop_map(|(len, seed)| Data { segs: vec![Seg::Text { len, seed }] }),
+    ]
+    .boxed()
 }
 
 fn data_for(tier: Tier) -> BoxedStrategy<Data> {
@@ -220,7 +239,7 @@ impl Property for C03 {
     const ID: &'static str = "C03";
 
     fn families(_tier: Tier) -> u32 {
-        14
+        16
     }
 
     fn strategy(tier: Tier, family: u32) -> BoxedStrategy<Case> {
@@ -277,7 +296,7 @@ impl Property for C03 {
     }
 
     fn rule() -> &'static str {
-        "ours->ref: streams written by the crate (.lzma with dictionary sizes the reference's .lzma decoder supports, raw LZMA1 with end marker, raw LZMA2, .xz, .lz; lc+lp <= 4; no preset dictionary) must be accepted by liblzma, consumed completely and decode to the input. ref->ours: streams written by liblzma (easy presets 0-9 +/- extreme, custom LZMA options with all five match finders, filter chains, four check types, multi-block files from full flushes and from the MT encoder with size fields, .lzma, raw LZMA2 with filters, LZIP built from liblzma's LZMA1 stream) must decode with the crate to the input. Non-trivial = input >= 16 bytes. Distinct = hash of the case recipe."
+        "ours->ref: streams written by the crate (.lzma with dictionary sizes the reference's .lzma decoder supports, raw LZMA1 with end marker, raw LZMA2, .xz, .lz; lc+lp <= 4; preset dictionaries on raw LZMA1 / LZMA2 in both directions, dictionary and input related so that the first symbols are matches into the dictionary) must be accepted by liblzma, consumed completely and decode to the input. ref->ours: streams written by liblzma (easy presets 0-9 +/- extreme, custom LZMA options with all five match finders, filter chains, four check types, multi-block files from full flushes and from the MT encoder with size fields, .lzma, raw LZMA2 with filters, LZIP built from liblzma's LZMA1 stream) must decode with the crate to the input. Non-trivial = input >= 16 bytes. Distinct = hash of the case recipe."
     }
 
     fn floors(_tier: Tier) -> Vec<(&'static str, f64)> {
@@ -288,6 +307,9 @@ impl Property for C03 {
             ("blocks_128_plus", 1.0),
             ("ref_size_fields", 3.0),
             ("filters", 10.0),
+            ("preset_ours_to_ref", 3.0),
+            ("preset_ref_to_ours", 3.0),
+            ("preset_referenced", 3.0),
         ]
     }
 
@@ -295,7 +317,7 @@ impl Property for C03 {
         vec![
             "liblzma 5.8 (bundled with liblzma-sys 0.4.8, static) is the reference",
             "there is no independent LZIP encoder: .lz reference files are liblzma LZMA1 streams wrapped in a harness-written header/trailer",
-            "ours->ref is narrowed to what the reference can decode: lc+lp<=4, .lzma dictionary 2^n or 2^n+2^(n-1), no preset dictionary",
+            "ours->ref is narrowed to what the reference can decode: lc+lp<=4, .lzma dictionary 2^n or 2^n+2^(n-1); preset dictionaries only on raw LZMA1 / LZMA2 (no container stores one)",
         ]
     }
 
@@ -342,6 +364,54 @@ impl Property for C03 {
                 obs.class("ours_to_ref");
                 let s = encode_lzip(&data, cfg, &case.plan)?;
                 ref_accepts("lzip", lzip_decode(&s, true, cap), s.len(), &data)
+            }
+            Dir::OursPreset { opts, lzma2, preset, weave } => {
+                obs.class("ours_to_ref");
+                obs.class("preset_ours_to_ref");
+                let (dict, input) = weave_preset(&preset.expand(), &data, *weave);
+                let dict = if dict.is_empty() { None } else { Some(dict) };
+                obs.class_if(dict.as_ref().is_some_and(|d| d.len() >= 40), "preset_referenced");
+                obs.class_if(dict.as_ref().is_some_and(|d| d.len() > opts.dict_size as usize), "preset_longer_than_dict");
+                let fr = if *lzma2 { Framing::Lzma2 { chunk: None } } else { Framing::RawEos };
+                let s = encode_lzma(&input, opts, dict.as_deref(), &fr, &case.plan)?;
+                let chain = Chain::new(&[], !*lzma2, &RefLzma::for_decode(opts.dict_size, opts.lc, opts.lp, opts.pb), dict.as_deref());
+                let cap = input.len() + (1 << 20);
+                ref_accepts(if *lzma2 { "preset-lzma2" } else { "preset-lzma1" }, raw_decode(&s, &chain, cap), s.len(), &input)
+            }
+            Dir::RefPreset { lzma, lzma2, preset, weave } => {
+                obs.class("ref_to_ours");
+                obs.class("preset_ref_to_ours");
+                let (dict, input) = weave_preset(&preset.expand(), &data, *weave);
+                let dict = if dict.is_empty() { None } else { Some(dict) };
+                obs.class_if(dict.as_ref().is_some_and(|d| d.len() >= 40), "preset_referenced");
+                obs.class_if(dict.as_ref().is_some_and(|d| d.len() > lzma.dict_size as usize), "preset_longer_than_dict");
+                let chain = Chain::new(&[], !*lzma2, lzma, dict.as_deref());
+                let s = match raw_encode(&input, &chain) {
+                    Ok(s) => s,
+                    Err(e) => {
+                        obs.class("ref_refused");
+                        obs.nontrivial = false;
+                        obs.notes.push(format!("reference refused raw preset options: {e}"));
+                        return Ok(());
+                    }
+                };
+                let cap = input.len() + (1 << 20);
+                let sizes = case.sizes.clone();
+                let (l2, lz) = (*lzma2, lzma.clone());
+                let d2 = dict.clone();
+                let r = no_panic("preset-decode", || -> std::io::Result<Vec<u8>> {
+                    if l2 {
+                        let mut r = LZMA2Reader::new(s.as_slice(), lz.dict_size, d2.as_deref());
+                        read_all(&mut r, &sizes, cap)
+                    } else {
+                        let mut r = LZMAReader::new(s.as_slice(), u64::MAX, lz.lc, lz.lp, lz.pb, lz.dict_size, d2.as_deref())?;
+                        read_all(&mut r, &sizes, cap)
+                    }
+                })?;
+                match r {
+                    Ok(out) => same("ours-decodes-ref-preset", &out, &input),
+                    Err(e) => Err(Failure::new("ours-rejects-ref-preset", e.to_string())),
+                }
             }
             Dir::RefEasy { preset, extreme, check } => {
                 obs.class("ref_to_ours");
